@@ -5,6 +5,7 @@ import (
 	"fmt"
 	"io"
 	"os"
+	"path/filepath"
 	"strings"
 	"sync"
 
@@ -15,10 +16,12 @@ import (
 	"go.uber.org/zap"
 
 	pbindex "github.com/streamingfast/substreams/pb/sf/substreams/index/v1"
+	pbsubstreams "github.com/streamingfast/substreams/pb/sf/substreams/v1"
 	"google.golang.org/protobuf/proto"
 
 	"verif/harness/fw"
 	"verif/harness/gen"
+	"verif/harness/native"
 	"verif/harness/props/c15a"
 	"verif/harness/sim"
 )
@@ -28,17 +31,17 @@ import (
 // filterOracle evaluates the generator's filter queries on a key set, written by hand
 // from the meaning of each query (independent of sqe).
 var filterOracle = map[string]func(k map[string]bool) bool{
-	"t0":                               func(k map[string]bool) bool { return k["t0"] },
-	"t1 || t2":                         func(k map[string]bool) bool { return k["t1"] || k["t2"] },
-	"k1 || k4":                         func(k map[string]bool) bool { return k["k1"] || k["k4"] },
-	"t3 && k0":                         func(k map[string]bool) bool { return k["t3"] && k["k0"] },
-	"(t0 || t1) && (k2 || k3 || k5)":   func(k map[string]bool) bool { return (k["t0"] || k["t1"]) && (k["k2"] || k["k3"] || k["k5"]) },
-	"t2 || (k0 && t1)":                 func(k map[string]bool) bool { return k["t2"] || (k["k0"] && k["t1"]) },
-	"k0 || k1 || k2":                   func(k map[string]bool) bool { return k["k0"] || k["k1"] || k["k2"] },
-	"t1 t2":                            func(k map[string]bool) bool { return k["t1"] && k["t2"] },
-	"'t0' || \"k3\"":                   func(k map[string]bool) bool { return k["t0"] || k["k3"] },
-	"nokey":                            func(k map[string]bool) bool { return k["nokey"] },
-	"nokey || t1":                      func(k map[string]bool) bool { return k["nokey"] || k["t1"] },
+	"t0":                             func(k map[string]bool) bool { return k["t0"] },
+	"t1 || t2":                       func(k map[string]bool) bool { return k["t1"] || k["t2"] },
+	"k1 || k4":                       func(k map[string]bool) bool { return k["k1"] || k["k4"] },
+	"t3 && k0":                       func(k map[string]bool) bool { return k["t3"] && k["k0"] },
+	"(t0 || t1) && (k2 || k3 || k5)": func(k map[string]bool) bool { return (k["t0"] || k["t1"]) && (k["k2"] || k["k3"] || k["k5"]) },
+	"t2 || (k0 && t1)":               func(k map[string]bool) bool { return k["t2"] || (k["k0"] && k["t1"]) },
+	"k0 || k1 || k2":                 func(k map[string]bool) bool { return k["k0"] || k["k1"] || k["k2"] },
+	"t1 t2":                          func(k map[string]bool) bool { return k["t1"] && k["t2"] },
+	"'t0' || \"k3\"":                 func(k map[string]bool) bool { return k["t0"] || k["k3"] },
+	"nokey":                          func(k map[string]bool) bool { return k["nokey"] },
+	"nokey || t1":                    func(k map[string]bool) bool { return k["nokey"] || k["t1"] },
 }
 
 func c15e2eCases(tier string) int {
@@ -296,11 +299,13 @@ func init() {
 	fw.Register(&fw.Spec{
 		ID:    "C15",
 		Level: "exploration",
-		Rule:  "three case families. (A) evaluator agreement: " + c15a.Rule + " (B) " + c15e2eRule + " (C) an index file saved through a store whose first upload attempt fails (the code retries) must load back with the same bitmaps.",
+		Rule:  "three case families. (A) evaluator agreement: " + c15a.Rule + " (B) " + c15e2eRule + " (C) an index file saved through a store whose first upload attempt fails (the code retries) must load back with the same bitmaps. (D) shared index (quick 16, thorough 400): two maps filtered by the SAME index module with the SAME single-key query but different initial blocks (the later one inside a segment) feed the output module; after a clean run only the index files are kept and the request runs again, so that every segment job evaluates both filters against the same pre-computed bitmaps: stream and rebuilt files equal the reference.",
 		Assumptions: append(append([]string{}, c15a.Assumptions...),
 			"end-to-end family: payload expectations come from REF-LINEAR; the reference's own skip decisions are judged by a hand-written evaluation of each generated filter query",
 			"a filtered module whose inputs are all absent is skipped by the engine regardless of the filter (only modules reading the block source are required to run on every matching block)"),
-		Cases: func(tier, mode string) int { return c15a.Cases(tier) + c15e2eCases(tier) + c15FileCases(tier) },
+		Cases: func(tier, mode string) int {
+			return c15a.Cases(tier) + c15e2eCases(tier) + c15FileCases(tier) + c15SharedCases(tier)
+		},
 		CaseTimeout:   180e9,
 		MinNontrivial: c15a.MinNontrivial,
 		Run: func(c *fw.Case) {
@@ -310,8 +315,10 @@ func init() {
 				c15a.Run(c)
 			case c.Index < n+c15e2eCases(c.Tier):
 				runC15e2e(c)
-			default:
+			case c.Index < n+c15e2eCases(c.Tier)+c15FileCases(c.Tier):
 				runC15IndexFile(c)
+			default:
+				runC15Shared(c)
 			}
 		},
 		Post: func(m *fw.Merged) {
@@ -414,4 +421,113 @@ func runC15IndexFile(c *fw.Case) {
 		return
 	}
 	c.Nontrivial(fmt.Sprintf("indexfile|%d|%v", c.Index, want))
+}
+
+func c15SharedCases(tier string) int {
+	if tier == "thorough" {
+		return 400
+	}
+	return 16
+}
+
+// runC15Shared: several modules filtered by one index module with one single-key query share the bitmap of the index file.
+func runC15Shared(c *fw.Case) {
+	s := newScen(c, gen.PkgOpts{MaxMods: 3})
+	defer s.close()
+	r := c.R
+	pkg := &gen.Pkg{Progs: map[string]*native.Program{}, Kind: map[string]string{}, Init: map[string]uint64{}}
+	src := func() *pbsubstreams.Module_Input {
+		return &pbsubstreams.Module_Input{Input: &pbsubstreams.Module_Input_Source_{Source: &pbsubstreams.Module_Input_Source{Type: native.BlockType}}}
+	}
+	query := []string{"t0", "t1", "k1", "k2"}[r.Intn(4)]
+	mods := []*pbsubstreams.Module{{Name: "idx", BinaryEntrypoint: "idx", Inputs: []*pbsubstreams.Module_Input{src()},
+		Kind:   &pbsubstreams.Module_KindBlockIndex_{KindBlockIndex: &pbsubstreams.Module_KindBlockIndex{OutputType: "proto:sf.substreams.index.v1.Keys"}},
+		Output: &pbsubstreams.Module_Output{Type: "proto:sf.substreams.index.v1.Keys"}}}
+	pkg.Progs["idx"] = &native.Program{Kind: "index", Seed: uint64(1 + r.Intn(1000)), Inputs: []native.InSpec{{Kind: "source"}}, TagMask: 0xF, KeyMask: 0x3F, Mul: 1, FailAt: -1, DelTag: -1, SetTag: -1}
+	pkg.Kind["idx"] = "index"
+	pkg.Names = append(pkg.Names, "idx")
+	var outInputs []*pbsubstreams.Module_Input
+	var outSpecs []native.InSpec
+	inits := []uint64{0, s.seg + 1 + uint64(r.Intn(int(s.seg))), 2*s.seg + uint64(r.Intn(int(s.seg)))}
+	n := 2 + r.Intn(2)
+	for i := 0; i < n; i++ {
+		name := fmt.Sprintf("filtered%d", i)
+		mods = append(mods, &pbsubstreams.Module{Name: name, BinaryEntrypoint: name, InitialBlock: inits[i], Inputs: []*pbsubstreams.Module_Input{src()},
+			Kind:        &pbsubstreams.Module_KindMap_{KindMap: &pbsubstreams.Module_KindMap{OutputType: "proto:verif.Lines"}},
+			Output:      &pbsubstreams.Module_Output{Type: "proto:verif.Lines"},
+			BlockFilter: &pbsubstreams.Module_BlockFilter{Module: "idx", Query: &pbsubstreams.Module_BlockFilter_QueryString{QueryString: query}}})
+		pkg.Progs[name] = &native.Program{Kind: "map", Seed: uint64(1 + r.Intn(1000)), Inputs: []native.InSpec{{Kind: "source"}}, TagMask: 0xF, KeyMask: 0x3F, Mul: 1 + i, FailAt: -1, DelTag: -1, SetTag: -1}
+		pkg.Kind[name] = "map"
+		pkg.Init[name] = inits[i]
+		pkg.Names = append(pkg.Names, name)
+		outInputs = append(outInputs, &pbsubstreams.Module_Input{Input: &pbsubstreams.Module_Input_Map_{Map: &pbsubstreams.Module_Input_Map{ModuleName: name}}})
+		outSpecs = append(outSpecs, native.InSpec{Kind: "map", Name: name})
+	}
+	outInit := inits[n-1]
+	outInputs = append(outInputs, src())
+	outSpecs = append(outSpecs, native.InSpec{Kind: "source"})
+	mods = append(mods, &pbsubstreams.Module{Name: "out", BinaryEntrypoint: "out", InitialBlock: 0, Inputs: outInputs,
+		Kind:   &pbsubstreams.Module_KindMap_{KindMap: &pbsubstreams.Module_KindMap{OutputType: "proto:verif.Lines"}},
+		Output: &pbsubstreams.Module_Output{Type: "proto:verif.Lines"}})
+	pkg.Progs["out"] = &native.Program{Kind: "map", Seed: 7, Inputs: outSpecs, TagMask: 0xF, KeyMask: 0x3F, Mul: 1, FailAt: -1, DelTag: -1, SetTag: -1}
+	pkg.Kind["out"] = "map"
+	pkg.Names = append(pkg.Names, "out")
+	pkg.Maps = []string{"out"}
+	pkg.Modules = &pbsubstreams.Modules{Modules: mods}
+	pkg.Rebuild()
+	_ = outInit
+	s.pkg = pkg
+	s.refs = map[string]*sim.Ref{}
+	ref := s.ref("out")
+	if ref == nil {
+		return
+	}
+	stop := 3*s.seg + 1 + uint64(r.Intn(int(s.seg)))
+	if stop > s.H {
+		stop = s.H
+	}
+	req := sim.RequestSpec{Modules: pkg.Modules, Output: "out", Prod: true, Start: 1, Stop: stop, Final: s.cl.Head, Workers: 1 + r.Intn(3), OrderSeed: 1 + r.Int63n(1<<40)}
+	res := s.cl.Run(req)
+	if res.Err != nil || res.Stuck {
+		c.Violation("C15/shared-index/clean-run-failed", fmt.Sprintf("clean run failed: stuck=%v err=%v", res.Stuck, res.Err), s.witness(map[string]any{"request": req}))
+		return
+	}
+	if fs, _ := sim.CheckStream(res, ref, false); len(fs) > 0 {
+		s.report("C15/shared-index/clean-run", fs, map[string]any{"request": req})
+		return
+	}
+	root := filepath.Join(s.cl.Dir, s.cl.Tag)
+	kept := 0
+	for _, f := range s.cl.ListCache() {
+		if f.Sub == "index" || strings.HasSuffix(f.Rel, ".spkg.zst") {
+			kept++
+			continue
+		}
+		os.Remove(filepath.Join(root, f.Rel))
+	}
+	c.Count("shared_index_scenarios", 1)
+	if kept == 0 {
+		c.Count("shared_index_scenarios_without_index_file", 1)
+		return
+	}
+	req.OrderSeed = 1 + r.Int63n(1<<40)
+	res2 := s.cl.Run(req)
+	extra := map[string]any{"request": req, "query": query, "initial_blocks_of_the_filtered_modules": inits[:n], "jobs": res2.Jobs}
+	if res2.Stuck || res2.Err != nil {
+		c.Violation("C15/shared-index/request-failed", fmt.Sprintf("re-run on the index files failed: stuck=%v err=%v", res2.Stuck, res2.Err), s.witness(extra))
+		return
+	}
+	fs, facts := sim.CheckStream(res2, ref, false)
+	s.report("C15/shared-index", fs, extra)
+	rf, compared, _ := sim.CheckReads(res2.Execs, ref)
+	s.report("C15/shared-index", rf, extra)
+	c.Count("store_reads_compared", int64(compared))
+	af, _ := s.cl.AuditCache(ref, s.pkg)
+	s.report("C15/shared-index", af, extra)
+	if c.Violated() {
+		return
+	}
+	if len(res2.Jobs) > 0 && facts.NonEmpty > 0 {
+		c.Nontrivial(fmt.Sprintf("shared-index|%v|%+v", pkg.Describe(), req))
+	}
 }
